@@ -211,13 +211,22 @@ func cmdCheck(args []string) int {
 		}
 		u.Ctx.obls = kept
 	}
-	sv.dischargeAll(units, 16)
-
 	known, err := loadKnownFindings(filepath.Join(vdir, "known_findings.txt"))
 	if err != nil {
 		fmt.Fprintln(os.Stderr, err)
 		return 2
 	}
+	// an obligation recorded as a known finding is expected not to discharge:
+	// it gets a short solver budget (still long enough to notice if it starts
+	// to hold, in which case the finding line is stale and it simply passes)
+	for _, u := range units {
+		for _, o := range u.Ctx.obls {
+			if matchKnown(known, *prop, o.Name) != nil {
+				o.ShortBudget = true
+			}
+		}
+	}
+	sv.dischargeAll(units, 16)
 	total, discharged, violations, engineFail := 0, 0, 0, 0
 	knownObls := 0
 	var recs []oblRecord
